@@ -124,6 +124,22 @@ func (g *Gen) verify() {
 		if c.Inject != "" {
 			g.injective(st, env, r1)
 		}
+		// vacuity guard: a clause about a callee must bind to at least one call in the function (a
+		// clause that names no call would hold trivially; a change that removes the call is reported)
+		unbound := func(kind string, i int, callee string) {
+			if !g.clauseBound[fmt.Sprintf("%s#%d", kind, i)] {
+				g.obls = append(g.obls, Obl{Name: fmt.Sprintf("%s[%s].binds-to-a-call", kind, callee), Kind: "pre", Pc: "true", Goal: "false", Line: c.Line})
+			}
+		}
+		for i, cp := range c.CallPre {
+			unbound("callpre", i, cp[1])
+		}
+		for i, gs := range c.GhostSet {
+			unbound("ghostset", i, gs[0])
+		}
+		for i, ob := range c.Observe {
+			unbound("observe", i, ob[0])
+		}
 	}
 	g.lemmas(st, env)
 }
